@@ -166,6 +166,9 @@ impl<T> ClientRuntimeState<T> where T : Read + Write + Send + Sync {
 
         let mut write_directive : Option<&[u8]>;
 
+        // all outbound bytes have been handed to the stream but its flush has not completed yet
+        let mut flush_pending : bool = false;
+
         let mut next_state = None;
         while next_state.is_none() {
             trace!("threaded - process_connected loop");
@@ -250,7 +253,6 @@ impl<T> ClientRuntimeState<T> where T : Read + Write + Send + Sync {
 
             let mut connection_fatal_write_error = None;
             if let Some(write_bytes) = write_directive {
-                let mut should_flush : bool = false;
                 let bytes_written_result = stream.write(write_bytes);
                 match bytes_written_result {
                     Ok(bytes_written) => {
@@ -260,7 +262,7 @@ impl<T> ClientRuntimeState<T> where T : Read + Write + Send + Sync {
                             if cumulative_bytes_written == outbound_data.len() {
                                 outbound_data.clear();
                                 cumulative_bytes_written = 0;
-                                should_flush = true;
+                                flush_pending = true;
                             }
                         } else {
                             connection_fatal_write_error = Some(std::io::Error::from(std::io::ErrorKind::WriteZero));
@@ -288,28 +290,34 @@ impl<T> ClientRuntimeState<T> where T : Read + Write + Send + Sync {
                     next_state = Some(ClientImplState::PendingReconnect);
                     continue;
                 }
+            }
 
-                if should_flush {
-                    let flush_result = stream.flush();
-                    match flush_result {
-                        Ok(()) => {
-                            if let Err(error) = client.handle_write_completion() {
-                                info!("threaded - process_connected - stream write completion handler failed: {:?}", error);
-                                client.apply_error(error);
-                                next_state = Some(ClientImplState::PendingReconnect);
-                                continue;
-                            }
-                        }
-                        Err(error) => {
-                            info!("threaded - process_connected - connection stream flush failed: {:?}", error);
-                            if is_connection_established(client.get_protocol_state()) {
-                                client.apply_error(GneissError::new_connection_closed(error));
-                            } else {
-                                client.apply_error(GneissError::new_connection_establishment_failure(error));
-                            }
+            if flush_pending {
+                let flush_result = stream.flush();
+                match flush_result {
+                    Ok(()) => {
+                        flush_pending = false;
+                        sleep_duration = None;
+                        if let Err(error) = client.handle_write_completion() {
+                            info!("threaded - process_connected - stream write completion handler failed: {:?}", error);
+                            client.apply_error(error);
                             next_state = Some(ClientImplState::PendingReconnect);
                             continue;
                         }
+                    }
+                    Err(error) if error.kind() == std::io::ErrorKind::WouldBlock || error.kind() == std::io::ErrorKind::Interrupted => {
+                        // a buffering stream (tls, websockets) over a non-blocking socket; try again on the next pass
+                        trace!("threaded - process_connected - flush would block");
+                    }
+                    Err(error) => {
+                        info!("threaded - process_connected - connection stream flush failed: {:?}", error);
+                        if is_connection_established(client.get_protocol_state()) {
+                            client.apply_error(GneissError::new_connection_closed(error));
+                        } else {
+                            client.apply_error(GneissError::new_connection_establishment_failure(error));
+                        }
+                        next_state = Some(ClientImplState::PendingReconnect);
+                        continue;
                     }
                 }
             }
